@@ -741,11 +741,12 @@ def eq_probe(impl, rng, result, expect, vals, pool=None):
     fa = impl.iindex.from_array
     common = int(result.common)
 
-    def probe(a, b, want_equal, what):
+    def probe(a, b, want_equal, what, both=True):
         e1, n1 = tri(lambda: a == b), tri(lambda: a != b)
         e2, n2 = tri(lambda: b == a), tri(lambda: b != a)
         cases.append((spec_of(a), spec_of(b), e1, n1))
-        cases.append((spec_of(b), spec_of(a), e2, n2))
+        if both:                        # (the Python oracle judges both directions in any case)
+            cases.append((spec_of(b), spec_of(a), e2, n2))
         w = 1 if want_equal else 0
         if (e1, n1, e2, n2) != (w, 1 - w, w, 1 - w):
             problems.append(("C15", "eq:%s" % what, "(a==b, a!=b, b==a, b!=a) = %r with a = %r, b = %r; expected %r (1 True, 0 False, -1 raised)" % (
@@ -759,8 +760,8 @@ def eq_probe(impl, rng, result, expect, vals, pool=None):
     cp = result.copy()
     probe(result, twin, True, "twin-unequal")
     probe(result, cp, True, "copy-unequal")
-    probe(result, result, True, "not-reflexive")
-    probe(twin, cp, True, "not-transitive")          # result == twin and result == copy, so twin == copy
+    probe(result, result, True, "not-reflexive", both=False)
+    probe(twin, cp, True, "not-transitive", both=False)          # result == twin and result == copy, so twin == copy
     kinds = ["cell", "common", "shape", "order"]
     rng.shuffle(kinds)
     for kind in kinds[:2]:
@@ -787,7 +788,7 @@ def eq_probe(impl, rng, result, expect, vals, pool=None):
             probe(result, fa(b, common=common), bool((b == expect).all()), "differs-in-row-order")
     # indexes reached by other histories: == iff (shape, common, dense content) coincide
     if pool:
-        for other, oa in rng.sample(pool, min(2, len(pool))):
+        for other, oa in rng.sample(pool, min(1, len(pool))):
             same = (tuple(other.shape) == tuple(result.shape) and int(other.common) == common
                     and oa.shape == expect.shape and bool((oa == expect).all()))
             probe(result, other, same, "other-history")
@@ -1159,7 +1160,7 @@ def run_check(ctx, prop):
     cov = LineCov(impl, ANCHORS[prop])
     n_cov = 150 if ctx.tier == "quick" else 600
     cases, owners = [], []           # literal, (history number, step number)
-    eqcases, eqowners = [], []
+    eqcases, eqowners, eqseen, eq_total = [], [], set(), 0
     lcases, lowners, fcases, fowners = [], [], [], []
     hists = []
     opdist = collections.Counter()
@@ -1224,8 +1225,12 @@ def run_check(ctx, prop):
                         extra_problems.append(("from_array:illformed", why, {"array": exp.tolist(), "common": cm, "how": "iindex.from_array(array, common=common).validate(True)"}))
         if prop == "C15":
             for c in h.eqcases:
-                eqcases.append(lit_ecase(*c))
-                eqowners.append(hn)
+                lit = lit_ecase(*c)
+                if lit not in eqseen:           # identical comparisons (tiny indexes) are evaluated once
+                    eqseen.add(lit)
+                    eqcases.append(lit)
+                    eqowners.append(hn)
+                eq_total += 1
     cov.stop()
     ctx.evaluations = len(cases) + (len(eqcases) if prop == "C15" else 0) + len(lcases) + len(fcases)
     ctx.coverage["histories"] = n_hist
@@ -1249,6 +1254,7 @@ def run_check(ctx, prop):
     if prop == "C15":
         res2 = core.run_cases("c15eq", PRELUDE, eqcases, "ecase", "chk15eq", "explain_eq", shard_size=600)
         ctx.coverage["eq_cases"] = len(eqcases)
+        ctx.coverage["eq_comparisons_made_on_the_implementation"] = eq_total
         ctx.coverage["eq_model_disagreements"] = len(res2.failing)
         errors += res2.errors
     if prop == "C07":
